@@ -194,7 +194,7 @@ def sym_wall(ctx, p, ylo, yhi):
     return y, m, d, h, mi, s, us
 
 
-def valid_source(ctx, kind, ylo, yhi, ntrans=1, shape=None, p="x", key="Verif/A"):
+def valid_source(ctx, kind, ylo, yhi, ntrans=1, shape=None, p="x", key="Verif/A", fold_fixed=None):
     """a valid aware (or naive) DateTime and its contract data: (x, tz, Ts, offs, u_seconds, us)"""
     P = ctx.P
     y, m, d, h, mi, s, us = sym_wall(ctx, p, ylo, yhi)
@@ -209,6 +209,9 @@ def valid_source(ctx, kind, ylo, yhi, ntrans=1, shape=None, p="x", key="Verif/A"
         return P.DateTime(y, m, d, h, mi, s, us, tzinfo=tz), tz, [], [off], w - off, us
     tz, Ts, offs = make_zone(ctx, key, cal.ymd2ord(y, m, d), ntrans, shape=shape)
     fold = ctx.int(p + "fold", 0, 1)
+    if fold_fixed is not None:
+        ctx.assume(fold == fold_fixed)       # case split for parallelism
+        fold = fold_fixed
     w_out, off, nvalid = resolve_wall(w, Ts, offs, fold == 1)
     ctx.assume(nvalid >= 1)                   # the wall time exists
     ctx.assume(IMPLIES(nvalid == 1, fold == 0))   # fold is only set inside an overlap
